@@ -23,7 +23,7 @@ From Coq Require Import List NArith Bool Arith.
 From Coq.Strings Require Import Byte.
 Import ListNotations.
 From OV Require Import Base.Bytes Base.ErrClass Model.Latch Gen.Continuable Proofs.Latch Model.Chunk Model.Fault
-  Proofs.Chunk Proofs.ChunkLines Proofs.ChunkTop Proofs.ChunkScan Proofs.Fault Proofs.FaultLines Proofs.FaultPrefix.
+  Proofs.Chunk Proofs.ChunkLines Proofs.ChunkTop Proofs.ChunkScan Proofs.Fault Proofs.FaultLines Proofs.FaultPrefix Gen.FaultWrap Proofs.FaultReaders.
 
 (* For each of the seven formats, every class the reader wraps an input failure into is
    non-continuable for the built-in ingester (tables extracted from the source each run). *)
@@ -162,6 +162,61 @@ Theorem hf_envelope_start_guarded : forall headers ls e,
   (forall l, In l ls -> l <> [] -> existsb (fun h => h l) headers = true) ->
   hf_envelope_start headers ls e <> HfEOF.
 Proof. exact hf_envelope_start_guarded. Qed.
+
+(* ---- format level, over the wrapping sites extracted from the source (Gen/FaultWrap.v) ---------- *)
+(* Every site at which one of the seven readers wraps a failure of its input yields a class the
+   built-in ingester does not call continuable (both tables regenerated from /repo each run). *)
+Theorem fault_wrap_terminal : forall fmt c,
+  fmt < length all_formats -> In c (fault_wrap fmt) -> transform_terminal fmt c = true.
+Proof. exact fault_wrap_terminal. Qed.
+
+Theorem fault_wrap_in_model : forall fmt c, In c (fault_wrap fmt) -> In c (fault_classes fmt).
+Proof. exact fault_wrap_in_model. Qed.
+
+(* fixedlength/reader.go tests the end of the input with err == io.EOF (not errors.Is / isEOF). *)
+Theorem fixedlength_eof_tests_are_identity :
+  fixedlength_rows_eof_is_identity = true /\ fixedlength_hf_eof_is_identity = true.
+Proof. exact fixedlength_eof_tests_are_identity. Qed.
+
+(* Old fixed-length, by_rows, for ALL line sequences, rows, positions inside an envelope: a failing
+   line reader ends the Read sequence with the fatal class after at most one node per line. *)
+Theorem fl_rows_fault : forall rows e, e <> IoEOF -> forall ls i first,
+  exists nodes, fl_rows_run rows i first ls e = nodes ++ [FlRes RcFatal] /\
+                Forall is_node nodes /\ length nodes <= length ls.
+Proof. exact fl_rows_fault. Qed.
+
+Theorem fl_rows_eof : forall rows ls i first,
+  exists nodes c, fl_rows_run rows i first ls IoEOF = nodes ++ [FlRes c] /\ Forall is_node nodes /\
+                  (c = RcEOF \/ c = RcFatal).
+Proof. exact fl_rows_eof. Qed.
+
+(* Old fixed-length, by_header_footer: known finding F27 as an iff, for all envelope declarations,
+   line sequences and states: the failing read becomes the fatal class exactly when every line at
+   which an envelope starts matches a header; otherwise it is swallowed (io.EOF). *)
+Theorem hf_fault_iff : forall envs e, e <> IoEOF -> forall ls idx cur,
+  exists nodes, hf_run envs idx cur ls e =
+                  nodes ++ [FlRes (if hf_all_match envs idx (option_map fst cur) ls then RcFatal else RcEOF)] /\
+                Forall is_node nodes /\ length nodes <= length ls.
+Proof. exact hf_fault_iff. Qed.
+
+(* From the bytes to the Transform for the by_rows reader: fatal within (bytes delivered) + 1 Reads. *)
+Theorem fault_is_fatal_fixedlength_rows : forall N gas fuel cs wl t rows ls e,
+  4 <= N -> runs_ok cs = true -> weight cs + 1 < gas -> is_fault_tail t ->
+  a_read_lines N fuel (concat cs, t) = Ok (ls, e) ->
+  read_lines source io_read N gas fuel b_init (mkSrc cs wl t) = Ok (ls, e) /\
+  exists nodes, fl_rows_run rows 0 [] ls e = nodes ++ [FlRes RcFatal] /\ Forall is_node nodes /\
+                length nodes <= length (concat cs) /\
+                transform_terminal 3 RcFatal = true.
+Proof. exact fault_is_fatal_fixedlength_rows. Qed.
+
+Example c16_readers_nonvacuous :
+  let BEGp := [x42; x45; x47] in let ENDp := [x45; x4e; x44] in
+  let envs := [mkHfEnv (prefix_eqb BEGp) (prefix_eqb ENDp) false] in
+  fl_rows_run 2 0 [] [[x61]; []; [x62]; [x63]] (IoFault 7) = [FlNode [x61]; FlRes RcFatal] /\
+  hf_run envs 0 None [BEGp; [x4c]; ENDp; [x42; x45]] (IoFault 7) = [FlNode BEGp; FlRes RcEOF] /\
+  hf_all_match envs 0 None [BEGp; [x4c]; ENDp; [x42; x45]] = false /\
+  hf_run envs 0 None [BEGp; [x4c]; ENDp; BEGp ++ [x78]] (IoFault 7) = [FlNode BEGp; FlRes RcFatal].
+Proof. vm_compute. repeat split; reflexivity. Qed.
 
 (* Non-vacuity of the prefix theorems: the fault arrives inside the second line / segment. *)
 Example c16_prefix_nonvacuous :
